@@ -1,6 +1,7 @@
 #!/bin/bash
-# mutants_all.sh "<name>:<prop> ..."  : evaluates seeded changes two at a time, appends to work/mutants.summary
+# mutants_all.sh "<name>:<prop>[,<prop>...] ..."  : evaluates seeded changes MUT_JOBS (default 3) at a time,
+# appends one line per (change, check) to work/mutants.summary
 mkdir -p /verif/work
-run_one() { n=${1%%:*}; p=${1##*:}; MUT_PAR=3 /verif/tools/mutant_eval.sh $n $p 2>&1 | grep "^MUTANT\|patch does not" >> /verif/work/mutants.summary; }
+run_one() { n=${1%%:*}; p=${1##*:}; MUT_PAR=${MUT_PAR:-3} /verif/tools/mutant_eval.sh $n ${p//,/ } 2>&1 | grep "^MUTANT\|patch does not" >> /verif/work/mutants.summary; }
 export -f run_one
-echo "$@" | tr ' ' '\n' | xargs -P 2 -I{} bash -c 'run_one {}'
+echo "$@" | tr ' ' '\n' | xargs -P ${MUT_JOBS:-3} -I{} bash -c 'run_one {}'
